@@ -205,8 +205,13 @@ def run(rep, tier, replay=None):
     layout_rules(rep, prog, run_, oks)
     reread_rule(rep, prog, run_)
     text_rule(rep, prog)
+    from .common import enum_tables_rule
+    enum_tables_rule(rep, prog, "R3", ["adsb_deku::FlightStatus", "adsb_deku::Capability", "adsb_deku::DownlinkRequest", "adsb_deku::UtilityMessageType",
+                                       "adsb_deku::KE", "adsb_deku::adsb::ControlFieldType"],
+                     "header enumerations (flight status, capability, downlink request, utility message type, KE, control-field type): each variant is selected by exactly the codes Annex 10 assigns to that meaning")
     if run_.unsummarised:
-        rep.violation("AI", "unsummarised-callees", "decode analysis met unsummarised callees (results may be imprecise): %s" % sorted(run_.unsummarised))
+        from .common import unsummarised_policy
+        unsummarised_policy(rep, run_.unsummarised, "decode analysis")
     rep.extra["grammar_paths"] = len(oks)
     rep.extra["interp_steps"] = run_.steps
     rep.extra["functions_analysed"] = len(run_.visited)
